@@ -33,6 +33,25 @@ func (in *Interp) load(p *PtrV) Value {
 	return nil
 }
 func (in *Interp) store(p *PtrV, v Value) {
+	if g := in.mergeGuard; g != nil {
+		// conditional store inside a merged diamond
+		nv, ok := v.(*Term)
+		if !ok {
+			in.unsupported("merge: non-scalar store")
+		}
+		if p.cell != nil {
+			old, ok := p.cell.v.(*Term)
+			if !ok || old.w != nv.w {
+				in.unsupported("merge: store over non-scalar")
+			}
+			p.cell.v = Ite(g, nv, old)
+			return
+		}
+		if p.arr != nil {
+			p.arr.node = p.arr.node.Store(p.idx, Ite(g, nv, p.arr.node.Read(p.idx)))
+			return
+		}
+	}
 	if p.cell != nil {
 		p.cell.v = copyVal(v)
 		return
@@ -86,8 +105,8 @@ func (in *Interp) exec(fr *frame, ins ssa.Instruction) {
 	case *ssa.Slice:
 		fr.loc[x] = in.slice(fr, x)
 	case *ssa.MakeSlice:
-		n := toInt64(in.get(fr, x.Len).(*Term), true)
-		c := toInt64(in.get(fr, x.Cap).(*Term), true)
+		n := toInt64(in.get(fr, x.Len).(*Term), isSigned(x.Len.Type()))
+		c := toInt64(in.get(fr, x.Cap).(*Term), isSigned(x.Cap.Type()))
 		et := x.Type().Underlying().(*types.Slice).Elem()
 		if !in.guard(And(Cmp("bvsle", IX(0), n), Cmp("bvsle", n, IX(1<<40)))) {
 			in.goPanic("makeslice: len out of range in " + fr.fn.String())
@@ -101,7 +120,18 @@ func (in *Interp) exec(fr *frame, ins ssa.Instruction) {
 		} else {
 			k, ok := constInt(n)
 			if !ok {
-				in.unsupported("symbolic length for slice of %s", et)
+				// case split on small lengths
+				K := in.smallLen
+				conds := make([]*Term, K+2)
+				for i := 0; i <= K; i++ {
+					conds[i] = Eq(n, IX(int64(i)))
+				}
+				conds[K+1] = ICmp("<", IX(int64(K)), n)
+				k = in.choose(conds)
+				if k == K+1 {
+					in.allocs = append(in.allocs, n)
+					in.end("bound", fmt.Sprintf("slice of %s with more than %d elements in %s (outside the harness bound)", et, K, fr.fn))
+				}
 			}
 			cells := make([]*Cell, k)
 			for i := range cells {
@@ -746,11 +776,24 @@ func (in *Interp) slice(fr *frame, x *ssa.Slice) Value {
 		chk(lo, hi, a.cap)
 		return &SliceV{obj: a.obj, off: Bin("bvadd", a.off, lo), len: Bin("bvsub", hi, lo), cap: Bin("bvsub", a.cap, lo)}
 	case *SliceG:
-		lo, ok1 := constInt(opt(x.Low, IX(0)))
-		hi, ok2 := constInt(opt(x.High, IX(int64(a.len))))
-		if !ok1 || !ok2 {
-			in.unsupported("symbolic bounds on slice of non-scalars")
+		pick := func(t *Term) int {
+			if k, ok := constInt(t); ok {
+				return k
+			}
+			// case split on the concrete value (0..cap, or out of range)
+			conds := make([]*Term, a.cap+2)
+			for i := 0; i <= a.cap; i++ {
+				conds[i] = Eq(t, IX(int64(i)))
+			}
+			conds[a.cap+1] = Not(And(ICmp("<=", IX(0), t), ICmp("<=", t, IX(int64(a.cap)))))
+			k := in.choose(conds)
+			if k == a.cap+1 {
+				in.goPanic("slice bounds out of range (generic) in " + fr.fn.String())
+			}
+			return k
 		}
+		lo := pick(opt(x.Low, IX(0)))
+		hi := pick(opt(x.High, IX(int64(a.len))))
 		if lo < 0 || lo > hi || hi > a.cap {
 			in.goPanic("slice bounds out of range (generic)")
 		}
